@@ -12,7 +12,7 @@ TB = ('Trusted base: the reconstructed Sphinx machine (hv/asm.py, hv/vm.py; DESI
 CHECKS = {
     'C01': dict(cat='translation_validation', ref='5 C01', engine='SVM+RI',
                 technique='symbolic execution of the emitted assembly on a z3 bit-vector Sphinx VM; per-path equivalence obligations against a source-level reference interpreter',
-                text='For every template of the sequential families (hand-written T-seq, entry-point signature matrix, seeded random programs) the real hidc output is executed '
+                text='For every template of the sequential families (hand-written T-seq, entry-point signature matrix, every operator in every position, the use-site matrix of expression kinds x consuming sites, string-source x index matrix, seeded random programs) the real hidc output is executed '
                      'symbolically with all command-line inputs symbolic; z3 decides that on every input the committed output/flag/sleep stream equals that of a reference '
                      'interpreter written from the README. Counterexamples are replayed concretely before being reported.',
                 note=TB + ' Overload choice, inserted casts and folded constants are taken from the real front end (they are C07/C11/C14\'s subject).'),
@@ -24,14 +24,14 @@ CHECKS = {
     'C03': dict(cat='model_checking', ref='5 C03', engine='SVM',
                 technique='reachability of a committed halt on the symbolic Sphinx VM; z3 decides feasibility of every halting path',
                 text='No path of the symbolic VM ends in a committed halt: checked builds for all inputs, unchecked builds under the path conditions of the fault-free checked paths; flavour matrix '
-                     '(ordinary/defeat/you function and try body x construct x handler kind) plus the time-travel, control-flow, fault and sequential families.',
+                     '(ordinary/defeat/you function and try body x construct x handler kind) plus the time-travel, control-flow, fault, sequential, operator-position and use-site families.',
                 note=TB + ' Runs that exhaust the instruction budget are reported as inconclusive, never as passes.'),
     'C04': dict(cat='model_checking', ref='5 C04', engine='SVM',
                 technique='symbolic execution at every stack size 0..G with access-region monitors (z3 decides path feasibility) and tight-vs-generous differential obligations',
                 text='Each allocation-site template (and slices of the other families) is compiled at every stack size from 0 words upward and executed with all inputs symbolic under a monitor that '
                      'classifies every load/store/jump (frame traffic within [ap, fp), element accesses inside a live array extent or a global, computed jumps to labels). Every non-overflow path must '
                      'equal the generous-stack run (no silent corruption) and stack_overflow must be monotone in the size.',
-                note=TB + ' Stack sizes above G (56 words) are not enumerated. Region classification: [fp]-based = frame traffic; library code may use [ap, fp) below its frame.'),
+                note=TB + ' Above G (56 words) only 500 words and the largest sizes the compiler accepts (16375..16378 words at 16 bit, where state addresses cross the sign bit; 5000 at wider words) are run. Region classification: [fp]-based = frame traffic; library code may use [ap, fp) below its frame.'),
     'C05': dict(cat='translation_validation', ref='5 C05', engine='SVM+RI',
                 technique='symbolic execution of emitted assembly (z3) vs reference-interpreter faults, plus explicit fault biconditionals decided by z3',
                 text='Fault matrix (division/modulo, index read/write/compound for int/byte/bool arrays in stack/global/const/parameter/argument storage and strings, dynamic lengths per element type, '
